@@ -14,6 +14,7 @@ import (
 	"io/ioutil"
 	"os"
 	"path/filepath"
+	"strings"
 	"time"
 
 	"github.com/getlantern/golog"
@@ -42,6 +43,7 @@ type Cmd struct {
 	Tables []zv.TableDef              `json:"tables"`
 	Lines  []map[string]interface{}   `json:"lines"`
 	Sorted bool                       `json:"sorted"`
+	Fields []string                   `json:"fields"`
 }
 
 type Scenario struct {
@@ -231,11 +233,42 @@ func (r *runner) exec(c *Cmd) error {
 		r.node.DB.VerifFlushTable(c.T)
 	case "Query":
 		sql := c.SQL
+		fields := c.Fields
+		if fields == nil {
+			fields = []string{}
+		}
+		win := len(fields) > 0
 		if sql == "" {
 			sql = "SELECT * FROM " + c.T
+			if win {
+				if r.node.DB.VerifNow().IsZero() {
+					// nothing processed since the restart: the default window of a
+					// virtual clock at the zero time is meaningless
+					return nil
+				}
+				sel := make([]string, 0, len(fields))
+				for _, f := range fields {
+					if f == "p" {
+						f = "_points"
+					}
+					sel = append(sel, f)
+				}
+				sql = "SELECT " + strings.Join(sel, ", ") + " FROM " + c.T
+			}
 		}
-		rows, _, err := r.node.Probe(sql, c.Mem, stepTimeout)
-		line := map[string]interface{}{"a": "QueryResult", "t": c.T, "mem": c.Mem, "rows": rows}
+		raw := map[string]bool{}
+		for _, t := range r.tables {
+			if t.Name == c.T {
+				for _, f := range t.Raw {
+					raw[f] = true
+				}
+			}
+		}
+		rows, vals, _, err := r.node.ProbeRaw(sql, c.Mem, stepTimeout, raw)
+		line := map[string]interface{}{"a": "QueryResult", "t": c.T, "mem": c.Mem, "rows": rows, "fields": fields, "win": win}
+		if len(vals) > 0 {
+			line["vals"] = vals
+		}
 		if rows == nil {
 			line["rows"] = []zv.Row{}
 		}
